@@ -58,7 +58,9 @@ pub fn make_inputs<T: HS>(cfg: &Cfg, out: &mut Out<T>, nstates: usize) -> Inputs
     if let Some(w) = &w {
         if wkind == "diag" && !real_svd {
             for i in 0..n {
-                out.assume(w[i], "!=", zero);
+                if zero_w != Some(i) {
+                    out.assume(w[i], "!=", zero);
+                }
             }
         }
     }
@@ -95,9 +97,23 @@ pub fn make_inputs<T: HS>(cfg: &Cfg, out: &mut Out<T>, nstates: usize) -> Inputs
             for j in 0..k {
                 out.assume(sigma[j], ">=", zero);
             }
-            let pl = Plant::new(n, m, useed + 17 * st as u64 * (useed > 0) as u64, vseed + 29 * st as u64 * (vseed > 0) as u64, sigma);
+            let (us, vs) = (useed + 17 * st as u64 * (useed > 0) as u64, vseed + 29 * st as u64 * (vseed > 0) as u64);
+            let pl = match zero_w {
+                // a zero weight in the planted tier: row z of W*Phi is zero, so the planted U gets a zero row there
+                // (an orthonormal frame on the other rows) and row z of Phi itself is free
+                Some(z) if n > m => {
+                    let small = Plant::new(n - 1, m, us, vs, sigma.clone());
+                    let u = DMatrix::from_fn(n, small.u.ncols(), |i, j| if i == z { zero } else { small.u[(if i < z { i } else { i - 1 }, j)] });
+                    Plant { u, sigma: small.sigma, vt: small.vt }
+                }
+                _ => Plant::new(n, m, us, vs, sigma),
+            };
             let a = pl.product();
             let phi = DMatrix::from_fn(n, m, |i, j| match (&w, wkind.as_str()) {
+                (Some(_), "diag") if zero_w == Some(i) => {
+                    let (x, y) = small(i * m + j, 11 + st);
+                    T::var(&format!("phiz{st}_{i}_{j}"), x, y)
+                }
                 (Some(w), "diag") => a[(i, j)] / w[i],
                 _ => a[(i, j)],
             });
